@@ -90,7 +90,7 @@ def run(tier, replay):
         reports = [r for group in zip(*per) for r in group] if len(set(map(len, per))) == 1 else reports
         return checklib.finish(CID, tier, LEVEL, RULE, reports, t0, ASSUMPTIONS,
                                extra_cov={"harness_wall_s": wall, "bound": {
-                                   "operands": 4, "atoms_full": 84, "atoms_3_operands": 13,
+                                   "operands": 4, "atoms_full": 88, "atoms_3_operands": 13,
                                    "atoms_4_operands": 4 if tier == "quick" else 6,
                                    "operators_4_operands": 9 if tier == "quick" else 19,
                                    "chunk_rows": 4, "plan_chain": 2 if tier == "quick" else 3}})
